@@ -763,6 +763,20 @@ fn gen_case(rng: &mut Rng, thorough: bool) -> Case {
         let mut hash = [0u8; 20];
         if rng.chance(2, 3) {
             hash.copy_from_slice(&sha1_of(&stored));
+        } else if rng.chance(1, 3) {
+            // a SPARSE hash field: zero except for one byte (any of the 20 positions) and possibly
+            // some bytes behind it. That is a wrong hash, not "no hash": retrieval must fail with a
+            // hash mismatch (seeded change C14-r4-seed1 compared the field in 8-byte words and lost
+            // the last four bytes).
+            let i = rng.below(20) as usize;
+            hash[i] = 1 + rng.below(255) as u8;
+            if rng.chance(1, 2) {
+                for h in hash.iter_mut().skip(i + 1) {
+                    if rng.chance(1, 2) {
+                        *h = rng.below(256) as u8;
+                    }
+                }
+            }
         }
         // corruptions
         match rng.below(16) {
@@ -1012,6 +1026,31 @@ fn main() {
                 }
             }
         }
+    }
+
+    // sparse hash sweep (deterministic): a hash field that is zero except for ONE byte, at each of
+    // the 20 positions, is a wrong hash (never "no hash"); retrieval must fail with a mismatch
+    for pos in 0..20usize {
+        let text = xml_text(&mut rng, 300 + pos);
+        let mut hash = [0u8; 20];
+        hash[pos] = if pos % 2 == 0 { 0x80 } else { 0x01 };
+        let file_addr = 0x4000_0000u64;
+        let mt_addr = MT_SLOT;
+        let mut mt = 1u64.to_le_bytes().to_vec();
+        mt.extend_from_slice(&entry_bytes(&EntrySpec { version: 0x0102_0003, info: 0, addr: file_addr, size: text.len() as u64, hash }));
+        let c = Case {
+            regions: vec![
+                abrm_region(0, 200, mt_addr, 0x2_0000),
+                sbrm_region(0x2_0000, 1, 1024, 1024, 0x3_0000),
+                Region { base: mt_addr, data: mt },
+                Region { base: file_addr, data: text },
+            ],
+            mt_addr,
+            max_ack: 1024,
+            ops: vec![None],
+            updates: vec![],
+        };
+        run_case(&mut rep, &c, "sparse-hash");
     }
 
     // files around / beyond the 1 MiB growth step of the XML buffer (second and third iteration
